@@ -22,12 +22,14 @@ LEVEL = "fault_enumeration"
 RULE = (
     "Hypothesis-generated scenarios: a PipeLang pipeline (results as tuples / text / bytes, nested keeps, keeps with "
     "arguments) evaluated on a local store that is {fresh and non-existing, fresh and pre-created, populated by an earlier "
-    "version of the pipeline (re-keep with changed code), populated by the same version}, with or without the object cache. "
+    "version of the pipeline (re-keep with changed code), populated by the same version, populated through another data view}, "
+    "with or without the object cache; in one scenario of three every simulated process runs under the same pid and the process "
+    "after the crash evaluates a further edited pipeline. "
     "The victim process (store creation + evaluation) runs with every os.* / open / raw read / raw write (split in two halves) "
     "/ close of the dds I/O modules turned into a boundary; it is killed (SIGKILL) at EVERY boundary of its trace in turn, "
     "each time from an identical copy of the initial store. After each kill: an observer process loads every path committed "
     "before the crash (must be its old or its new value), a recovery process evaluates the pipeline (must equal the reference "
-    "model), loads every path, and evaluates again (no kept function may run). Non-trivial = the kill lies strictly between "
+    "model), loads every path (after its first and after its second evaluation), and evaluates again (no kept function may run). Non-trivial = the kill lies strictly between "
     "the first and the last mutating operation of the victim; distinct by (scenario, boundary index)."
 )
 ASSUMPTIONS = [
